@@ -65,11 +65,20 @@ Definition e1d_one_v0 (s : shape) : result shape :=
   else if (nd =? 1)%nat then add_axis1 s
   else Ok s.
 
-(* ---- ensure_vector (one array), in source order ----------------------------------------
-     if ndim > 1 and shape[1] == 1:    xx[:, 0]
-     elif ndim > 1 and shape[1] != 1:  raise ValueError
-     elif ndim > 2:                    raise ValueError     (unreachable: shadowed by the two above) *)
+(* ---- ensure_vector (one array), in source order (after the repair of C19) ---------------
+     if ndim > 2:                      raise ValueError
+     elif ndim > 1 and shape[1] == 1:  xx[:, 0]
+     elif ndim > 1 and shape[1] != 1:  raise ValueError                                      *)
 Definition ev_one (s : shape) : result shape :=
+  let nd := length s in
+  if (2 <? nd)%nat then Err ValueErr
+  else if (1 <? nd)%nat && (nth 1 s 0 =? 1)%nat then drop_axis1 s
+  else if (1 <? nd)%nat then Err ValueErr
+  else Ok s.
+
+(* the code before the repair tested `ndim > 2` LAST, where it is shadowed by the two tests above it:
+   a rank-3 array with a singleton second axis was trimmed to a 2-d array and accepted *)
+Definition ev_one_v0 (s : shape) : result shape :=
   let nd := length s in
   if (1 <? nd)%nat && (nth 1 s 0 =? 1)%nat then drop_axis1 s
   else if (1 <? nd)%nat then Err ValueErr
@@ -97,6 +106,7 @@ Fixpoint map_result {A B} (f : A -> result B) (l : list A) : result (list B) :=
 Definition ensure_1d_with_singleton (l : list shape) : result (list shape) := map_result e1d_one l.
 Definition ensure_1d_with_singleton_v0 (l : list shape) : result (list shape) := map_result e1d_one_v0 l.
 Definition ensure_vector (l : list shape) : result (list shape) := map_result ev_one l.
+Definition ensure_vector_v0 (l : list shape) : result (list shape) := map_result ev_one_v0 l.
 Definition ensure_2d (l : list shape) : result (list shape) := map_result e2d_one l.
 
 (* ---- ensure_equal_dims (to_check, dim) ---------------------------------------------------
@@ -202,13 +212,14 @@ Definition render_shapes (r : result (list shape)) : list Z :=
 Definition render_unit (r : result unit) : list Z :=
   match r with Err e => [err_code e] | Ok _ => [0] end.
 
-(* which: 0 ensure_vector | 1 ensure_1d_with_singleton | 2 ensure_2d | 3 ensure_1d_with_singleton before the repair *)
+(* which: 0 ensure_vector | 1 ensure_1d_with_singleton | 2 ensure_2d | 3 / 4: ensure_1d_with_singleton / ensure_vector before the repair *)
 Definition run_ensure (which : Z) (l : list shape) : list Z :=
   render_shapes
     (if which =? 0 then ensure_vector l
      else if which =? 1 then ensure_1d_with_singleton l
      else if which =? 2 then ensure_2d l
-     else ensure_1d_with_singleton_v0 l).
+     else if which =? 3 then ensure_1d_with_singleton_v0 l
+     else ensure_vector_v0 l).
 
 (* dim: -1 = None, d >= 0 = axis d *)
 Definition dim_of_Z (d : Z) : option nat := if d <? 0 then None else Some (Z.to_nat d).
